@@ -16,6 +16,8 @@ import functools
 import random
 import sys
 
+import numpy as _np
+
 from vm import common
 
 DOC = {
@@ -68,7 +70,8 @@ DOC = {
 MODULE_DOC = {'concat': ['tables', 'axis']}     # biom.concat(tables, axis)
 
 _RNG = [random.Random(0)]
-STATS = {'calls_from_harness': 0, 'keywords_made_positional': 0}
+STATS = {'calls_from_harness': 0, 'keywords_made_positional': 0,
+         'flags_given_as_numpy_bool_or_int': 0}
 _INSTALLED = [False]
 
 
@@ -96,7 +99,15 @@ def _wrap(f, order, skip_self):
             STATS['calls_from_harness'] += 1
             head = a[:1] if skip_self else ()
             rest = a[1:] if skip_self else a
-            rest, k, n = _convert(order, rest, dict(k))
+            k = dict(k)
+            # a flag is a flag whether it is True / False, the numpy bool a
+            # comparison returns, or 1 / 0
+            for name_, v in list(k.items()):
+                if type(v) is bool and _RNG[0].random() < .12:
+                    k[name_] = _np.bool_(v) if _RNG[0].random() < .6 \
+                        else int(v)
+                    STATS['flags_given_as_numpy_bool_or_int'] += 1
+            rest, k, n = _convert(order, rest, k)
             STATS['keywords_made_positional'] += n
             a = head + rest
         return f(*a, **k)
